@@ -7,6 +7,16 @@ NOTES = ("All checks: bin/check <Cxx> [--tier quick|thorough]. Each run re-extra
 NOT_APPLICABLE = {}
 
 CHECKS = {
+ "C01": {
+  "text": "Theorems over a branch-by-branch model of checkAuth (CSRF test, client-certificate branch, cookie branch incl. getAuthInfoFromJWT, basic auth) and certGenHandler (sealed test, the sufficientAuthLevel loop with the U2F override, target comparison, method, form, type dispatch): c01_sound (a certificate implies an unsealed server, POST, the URL naming the authenticated user, and a currently valid credential - session, password, keymaster client certificate, IP-restricted certificate inside its blocks - at a level that qualifies), c01_sufficient_iff (the loop decides exactly `qualifies`, for every list of strings and every level mask), c01_password_only_refused / c01_password_session_401, c01_everything_else_refused + c01_refused_is_error (every other request gets a status >= 400 and nothing signed), c01_complete_session/_password/_cert (an orderly request with a qualifying credential is served), c01_strict_refuted (the strict reading of the `password` entry is not what the code does: federated-only, CLI and IP-certificate credentials are served under [password]). Obligations tie the factor bits, the nine method strings and the /certgen/ route to constants regenerated from the current tree. Correspondence: 528 lists (all 512 subsets + order/duplicate/near-miss lists) x 74 credential shapes (really signed, expired, not-yet-valid, foreign-issuer/audience/key, other token kinds, alg:none, HS256-with-public-key, bit-flipped, client certificates of every kind, Origin/Referer, double cookies) x 4 types x 3 methods x sealed/unsealed through the real handler; Coq recomputes the expected class of every case from its index (quick 52 688 requests, thorough the full 937 728); independent Go oracle for 'proves and qualifies'; Accept: text/html and YAML-loaded lists as cross checks.",
+  "note": "Trusted: Coq kernel + vm_compute; symbolic signatures (go-jose / crypto/x509 are exercised, not modelled); VerifiedChains set by the harness; parsers in front of the model. Reading fixed (F18): the `password` entry is met by any credential checkAuth accepts. Two defects repaired in the source (empty 200 for an unparsable Origin header; 200 with the 2FA page for HTML clients with an insufficient session).",
+  "technique": "Coq proof over all lists/masks/requests + regenerated constants + exhaustive finite enumeration evaluated inside Coq + independent oracle",
+ },
+ "C02": {
+  "text": "TBD",
+  "note": "TBD",
+  "technique": "TBD",
+ },
  "C17": {
   "text": "Theorem c17_location: for every byte string submitted as login_destination and either outcome of url.Parse, the Location emitted by http.Redirect (model of path.Clean, query split, trailing slash, hex escaping) is same-origin under WHATWG rules; proved for all strings by induction. Tied to the code by (a) exhaustive small-scope + adversarial + random differential comparison of the model's Location with the real getLoginDestination/http.Redirect/loginHandler, (b) a regenerated table of every http.Redirect target with an obligation that none reads the request unfiltered.",
   "note": "Trusted: Coq kernel + vm_compute; go/ast extractor; model of net/http.Redirect validated by correspondence; WHATWG rule encoded by hand. 2FA/OAuth handlers share the same filter+sink (checked syntactically), exercised through loginHandler and the function pair.",
